@@ -92,11 +92,11 @@ func (c *C09) Do(in *hub.Instance, gg Ghost, op engine.Op, st *engine.Step) {
 	g := gg.(*c09Ghost)
 	switch op.Kind {
 	case "SetStake":
-		in.Staking.Vals[op.I[0]].Power = c.Stakes[op.I[1]]
+		in.ValSetPower(int(op.I[0]), c.Stakes[op.I[1]])
 	case "Unbond":
-		in.Staking.Vals[op.I[0]].Bonded = false
+		in.ValUnbond(int(op.I[0]))
 	case "Rebond":
-		in.Staking.Vals[op.I[0]].Bonded = true
+		in.ValRebond(int(op.I[0]))
 	case "Reg":
 		v := c.Vals[op.I[0]]
 		seq, _ := in.Acc.GetSequence(in.Ctx(), v.Acc)
@@ -117,7 +117,7 @@ func (c *C09) Do(in *hub.Instance, gg Ghost, op engine.Op, st *engine.Step) {
 			return
 		}
 		if in.Staking.Vals[op.I[0]].Bonded {
-			in.Staking.Vals[op.I[0]].Jailed = true
+			in.ValJail(int(op.I[0]))
 		}
 		c.begin(in, g, st)
 	case "Idle":
@@ -331,7 +331,7 @@ func c09Extra() *C09 {
 
 func init() {
 	Register("C09", MultiRunner(func(tier string) ([]MultiCase, []string) {
-		d3, d4, dl := 4, 3, 35*time.Second
+		d3, d4, dl := 5, 4, 60*time.Second
 		if tier == "thorough" {
 			d3, d4, dl = 6, 5, 10*time.Minute
 		}
